@@ -259,7 +259,12 @@ def array_binop(op, a, b, lineno=None):
         return elementwise(lambda x, y: scalar_binop(op, B(x), B(y), lineno), a, b, "bool", lineno)
     if op in ("BitAnd", "RShift") and not is_arr(b):
         return elementwise(lambda x, y: _bit_noassert(op, x, y), a, b, "int", lineno)
-    return elementwise(lambda x, y: scalar_binop(op, x, y, lineno), a, b, "int", lineno)
+    r = elementwise(lambda x, y: scalar_binop(op, x, y, lineno), a, b, "int", lineno)
+    if op in ("Add", "Sub") and isinstance(a, SArr) and not is_arr(b) and isinstance(r, SArr):
+        r.linear_of = (a.snapshot(), b if op == "Add" else scalar_binop("Sub", 0, b))
+    elif op == "Add" and isinstance(b, SArr) and not is_arr(a) and isinstance(r, SArr):
+        r.linear_of = (b.snapshot(), a)
+    return r
 
 
 def _bit_noassert(op, x, m):
@@ -438,13 +443,14 @@ def cumsum(a, lineno=None):
     use("cumsum (prefix-sum recurrence)")
     fa = a.snapshot()
     n = a.length
-    C = exclusive_prefix(fa, n)
+    C = exclusive_prefix(fa, n, a)
+    maybe_monotone(C, fa, n)
     r = SArr.fresh(n, lambda t: C(I(t) + 1), "int")
     r.prefix = (C, fa, n)
     return r
 
 
-def exclusive_prefix(fa, n):
+def exclusive_prefix(fa, n, src=None):
     """C(0)=0, C(i+1)=C(i)+a(i) for 0<=i<n: the exclusive prefix-sum function of a.  One function per (array content,
     length): np.cumsum, RaggedArray row offsets, sums ... of the SAME array share it."""
     c = ctx()
@@ -458,7 +464,36 @@ def exclusive_prefix(fa, n):
     c.assume(Forall(lambda t: Implies(And(t >= 1, t <= I(n)), C(t) == C(t - 1) + I(fa(t - 1))),
                     triggers=[C], name="xsum.rec"))
     cache[key] = (C, fa, nz)
+    lin = getattr(src, "linear_of", None)
+    if lin is not None:
+        # engine lemma L5 (pyvc/lemmas.py): prefix sums are linear:  g = a + c  =>  C_g(i) = C_a(i) + c*i
+        use("engine lemma: prefix sum of (a + c) is prefix sum of a plus c*i (pyvc/lemmas.py L5)")
+        base_fa, cst = lin
+        Cb = exclusive_prefix(base_fa, n)
+        c.assume(Forall(lambda i: Implies(And(I(i) >= 0, I(i) <= I(n)), C(i) == Cb(i) + I(cst) * I(i)), triggers=[C], name="L5 linear prefix"))
+        c.assume(Forall(lambda i: Implies(And(I(i) >= 0, I(i) <= I(n)), C(i) == Cb(i) + I(cst) * I(i)), triggers=[Cb], name="L5 linear prefix'"))
     return C
+
+
+def maybe_monotone(C, fa, n):
+    """enable the prefix-sum monotonicity lemma when its premise (summands >= 0) is provable right here"""
+    c = ctx()
+    done = c.ghost.setdefault("monotone_done", set())
+    if C.get_id() in done:
+        return
+    if c.try_prove("%s:prefix.summands.nonneg" % c.fname, Forall(lambda k: Implies(in_range(k, n), I(fa(k)) >= 0)),
+                   "summands are non-negative (premise of the prefix-sum monotonicity lemma)"):
+        done.add(C.get_id())
+        _assume_monotone(C, n)
+
+
+def _assume_monotone(C, n):
+    from .core import PairForall
+    c = ctx()
+    use("engine lemma: prefix sums of non-negative terms are non-negative and monotone (pyvc/lemmas.py L1-L3)")
+    c.assume(Forall(lambda i: Implies(And(I(i) >= 0, I(i) <= I(n)), C(i) >= 0), triggers=[C], name="L1 prefix >= 0"))
+    c.assume(PairForall(C, lambda a, b: Implies(And(a >= 0, a <= b, b <= I(n)), C(a) <= C(b)), name="L3 prefix monotone"))
+    c.assume(Forall(lambda i: Implies(And(I(i) >= 0, I(i) <= I(n)), C(i) <= C(I(n))), triggers=[C], name="L3 prefix <= total"))
 
 
 def prefix_monotone(C, fa, n, oid="prefix.nonneg"):
